@@ -27,7 +27,11 @@
 //! Bogus mark in answer/authority; proofs of RRSIG records themselves (judged through the RRset they
 //! cover); TTLs (C06); a DNSKEY RRset consisting only of the configured trust-anchor key(s) being
 //! Secure without RRSIG; additional-section content that is marked Bogus; duplicate records; letter
-//! case of names embedded in RDATA; a stricter validator (Bogus where Secure/Insecure was possible).
+//! case of names embedded in RDATA; non-canonical NSEC/NSEC3 type-bitmap encodings of the same type
+//! set (hickory compares type sets, keeps the original bytes for the signature check); a negative
+//! conclusion reached through a CNAME link of a truly insecure zone (that link is forgeable anyway);
+//! a negative conclusion behind a forged link already reported under (i); a stricter validator
+//! (Bogus where Secure/Insecure was possible).
 #![allow(dead_code)]
 
 use std::collections::BTreeSet;
